@@ -80,11 +80,14 @@ def build_shadow(log=None):
                            cwd=SHADOW, env=_env(), stdout=subprocess.PIPE, stderr=subprocess.PIPE)
         exe = None
         exes = {}
+        errs = []
         for ln in r.stdout.decode('utf-8', 'replace').splitlines():
             try:
                 j = json.loads(ln)
             except Exception:
                 continue
+            if j.get('reason') == 'compiler-message' and (j.get('message') or {}).get('level') == 'error':
+                errs.append((j['message'].get('rendered') or '')[:2000])
             if j.get('reason') == 'compiler-artifact' and j.get('executable') and j.get('profile', {}).get('test'):
                 nm = j.get('target', {}).get('name', '')
                 exes[nm] = j['executable']
@@ -96,6 +99,7 @@ def build_shadow(log=None):
         if not ok:
             with open(os.path.join(harness.WORK, 'shadow-build.err'), 'wb') as f:
                 f.write(r.stderr)
+                f.write(('\n'.join(errs)).encode())
         res = (ok, round(time.time() - t0, 1), exe)
         _built[key] = res
         return res
